@@ -1271,3 +1271,28 @@ def rule_nf10(ctx: Ctx) -> RuleResult:
           f"`{var}` is unwrapped from Optional and routed as ONE member even when it is a union: its members are not categorised "
           f"(e.g. [null, 's', [1.5, null, true]] next to [[1]] gives List[Optional[Union[float, bool, int]]] through the CLI)", n.lineno)
     return rr
+
+
+def rule_nf11(ctx: Ctx) -> RuleResult:
+    """NF-11: the flag that lets optimize_type enter a model pointer is not handed down the recursion (the documented cycle guard)."""
+    rr = RuleResult("NF-11", "re-running the simplification cannot recurse for ever through model pointers", floor=3)
+    f = ctx.prog.func(GEN, "MetadataGenerator.optimize_type")
+    flag = [a for a in f.params if a not in ("self",)][1:] or []
+    if not flag:
+        raise AnalysisError("NF-11: optimize_type has no process_model_ptr-like parameter any more")
+    fl = flag[0]
+    st = (f"`{fl}` applies to the node optimize_type was called on; the recursive calls for its components use the default "
+          f"(False), so a pointer met further down is not followed: model graphs may contain cycles (a tree node holding a list of "
+          f"tree nodes)")
+    n = 0
+    for c in walk_no_nested(f.node):
+        if isinstance(c, ast.Call) and norm(c.func) == "self.optimize_type":
+            n += 1
+            rr.instances += 1
+            passes = len(c.args) > 1 or any(k.arg == fl or k.arg is None for k in c.keywords)
+            rr.ob(f.relpath, f.qualname, norm(c)[:70], st, VIOLATED if passes else DISCHARGED,
+                  f"`{fl}` is forwarded: with it set, a cyclic model graph recurses until RecursionError" if passes else
+                  "component simplified with the default flag", c.lineno)
+    if n < 3:
+        raise AnalysisError(f"NF-11: only {n} recursive calls found")
+    return rr
